@@ -55,7 +55,13 @@ func C04(c *fw.Ctx) {
 	c.Bound("closure_interleaving_len", ilen)
 	c.R.Rule = "return at every nesting path over {block, if-then, if-else, while, for}; arity n x m; every kind in callee position; direct and mutual recursion; every interleaving of calls to sibling closures of two counter instances under four holder forms; late update and use-after-scope; non-trivial = model-specified; distinct by text"
 	kinds := []string{"block", "then", "else", "while", "for", "for-noinc", "for-bare", "while-true"}
+	pool := newProgPool(40)
+	defer func() {
+		// every ordered pair of an evenly spread sub-sequence of this shard's programs, as `{ P } { Q }`
+		composePairs(c, "calls", pool, judgeOpts{})
+	}()
 	run := func(sig string, prog []*model.N) {
+		pool.offer(prog)
 		_, _, skipped := judge(c, prog, judgeOpts{SigPrefix: sig})
 		if !skipped {
 			c.R.States++
